@@ -1,74 +1,63 @@
 (* Props/C19.v — property C19: a run touches nothing outside its output directory.
    Statements only; proofs are in Out/FsModelProofs.v.
 
-   ford_ops b pkg c p pages  is the sequence of mutating file-system operations of a whole run
+   ford_ops b pkg c p cands  is the sequence of mutating file-system operations of a whole run
    (empty when parse_arguments refuses); c is the configuration after normalise_paths,
-   roots c = [output_dir; graph_dir].  clean (out c) is discharged by C19_out_clean for every
-   configuration that normalise_cfg produces. *)
+   roots c = [output_dir; graph_dir]; cands are the candidate pages with their names as written
+   (directory entries and ordered_subpage entries: any text, "..", "a/../../b.md", ...) and their
+   copy_subdir entries as written (relative with "..", or absolute).  clean (out c) is
+   discharged by C19_out_clean for every configuration that normalise_cfg produces.
+
+   The model describes the repaired code: get_page_tree skips entries that are not plain names
+   of the directory, PagetreePage.writeout skips copy_subdir entries whose destination leaves
+   <output_dir>/page.  Before these two repairs the full statement was refuted (a page's
+   copy_subdir: ../../shared and ordered_subpage: sub/../../../note.md escaped); the former
+   counterexamples are kept as regression inputs (theorems C19_former_witness_copy_subdir and C19_former_witness_ordered_subpage). *)
 From Ford Require Import Base.Str Out.FsModel Out.FsModelProofs.
 
 (* Full statement: every target of every operation lies under output_dir or graph_dir, for all
-   configurations, projects and page trees.  FALSE of the code: a page may point above the
-   output directory (copy_subdir: ../../x, or a location with ".." reached through
-   ordered_subpage) — partial theorem + refutations. *)
-Definition C19_statement : Prop :=
-  forall b pkg c p pages, clean (out c) = true ->
-    Forall (op_confined (roots c)) (ford_ops b pkg c p pages).
-
-(* all out_is_file flags, package dirs, configurations, projects (any number of entity pages,
-   source files, graphs) and page trees whose pages stay below <out> (decidable region) *)
-Theorem C19_targets_confined : forall b pkg c p pages,
-  clean (out c) = true -> pages_confined pages = true ->
-  Forall (op_confined (roots c)) (ford_ops b pkg c p pages).
+   out_is_file flags, package dirs, configurations, projects (any number of entity pages, source
+   files, graphs) and candidate pages — no restriction on the page tree any more. *)
+Theorem C19_targets_confined : forall b pkg c p cands,
+  clean (out c) = true ->
+  Forall (op_confined (roots c)) (ford_ops b pkg c p cands).
 Proof. exact ford_ops_confined. Qed.
 Print Assumptions C19_targets_confined.
 
-Theorem C19_refuted : ~ C19_statement.
-Proof. exact statement_refuted. Qed.
-Print Assumptions C19_refuted.
+(* what makes it true: whatever the names of the candidates, every page that is built has a
+   location that never climbs above <out>/page *)
+Theorem C19_page_locations_inside : forall cands pg, In pg (pages_of cands) -> loc_ok pg = true.
+Proof. exact pages_of_loc_ok. Qed.
+Print Assumptions C19_page_locations_inside.
 
-(* even with every page location inside, a copy_subdir entry escapes ... *)
-Theorem C19_refuted_copy_subdir :
-  ~ (forall b pkg c p pages, clean (out c) = true -> pages_loc_ok pages = true ->
-       Forall (op_confined (roots c)) (ford_ops b pkg c p pages)).
-Proof. exact statement_refuted_copy_subdir. Qed.
-Print Assumptions C19_refuted_copy_subdir.
+(* the former counterexamples: the escaping entries now contribute no operation *)
+Theorem C19_former_witness_copy_subdir :
+  ford_ops false [s "<ford>"] w_cfg w_proj [w_cand_copy]
+    = ford_ops false [s "<ford>"] w_cfg w_proj [mkcand [] true "index" [] []] /\
+  run (ford_ops false [s "<ford>"] w_cfg w_proj [w_cand_copy]) w_fs [s "proj"; s "shared"; s "f"] = None.
+Proof. exact former_witness_copy_subdir. Qed.
+Print Assumptions C19_former_witness_copy_subdir.
 
-(* ... and with every copy_subdir entry inside, a page location escapes *)
-Theorem C19_refuted_page_location :
-  ~ (forall b pkg c p pages, clean (out c) = true -> pages_copy_ok pages = true ->
-       Forall (op_confined (roots c)) (ford_ops b pkg c p pages)).
-Proof. exact statement_refuted_page_location. Qed.
-Print Assumptions C19_refuted_page_location.
+Theorem C19_former_witness_ordered_subpage :
+  ford_ops false [s "<ford>"] w_cfg w_proj [w_cand_loc] = ford_ops false [s "<ford>"] w_cfg w_proj [] /\
+  ford_ops false [s "<ford>"] w_cfg w_proj [w_cand_dotdot] = ford_ops false [s "<ford>"] w_cfg w_proj [].
+Proof. exact former_witness_ordered_subpage. Qed.
+Print Assumptions C19_former_witness_ordered_subpage.
 
 (* every crash point = every prefix (firstn k) of the operation sequence, on every file system f:
    everything outside the roots is unchanged, except that a missing ancestor directory of a root
    may have been created as a directory (mkdir(parents=True)) *)
-Theorem C19_prefix_safe : forall b pkg c p pages,
-  clean (out c) = true -> pages_safe pages = true ->
-  forall (f : fs) k, agree_outside (roots c) f (run (firstn k (ford_ops b pkg c p pages)) f).
+Theorem C19_prefix_safe : forall b pkg c p cands,
+  clean (out c) = true ->
+  forall (f : fs) k, agree_outside (roots c) f (run (firstn k (ford_ops b pkg c p cands)) f).
 Proof. exact prefix_safe. Qed.
 Print Assumptions C19_prefix_safe.
 
-(* pages_safe is the wider decidable class: page locations stay below <out>, copy_subdir entries
-   stay below <out> or are absolute (copytree(x, x), a no-op); it contains pages_confined *)
-Theorem C19_confined_is_safe : forall pages, pages_confined pages = true -> pages_safe pages = true.
-Proof. exact pages_confined_safe. Qed.
-Print Assumptions C19_confined_is_safe.
-
-(* without the restriction the crash-safety statement is false as well: the witness run creates
-   /proj/shared/f outside /proj/doc and /proj/graphs *)
-Theorem C19_prefix_safe_refuted :
-  ~ (forall b pkg c p pages, clean (out c) = true -> pages_loc_ok pages = true ->
-       forall (f : fs) k, agree_outside (roots c) f (run (firstn k (ford_ops b pkg c p pages)) f)).
-Proof. exact prefix_safe_refuted. Qed.
-Print Assumptions C19_prefix_safe_refuted.
-
 (* the same as an equation, when the ancestors of the roots already exist *)
-Theorem C19_prefix_safe_eq : forall b pkg c p pages,
-  clean (out c) = true -> pages_safe pages = true ->
+Theorem C19_prefix_safe_eq : forall b pkg c p cands,
+  clean (out c) = true ->
   forall (f : fs) k, ancestors_exist (roots c) f ->
-  forall q, outside (roots c) (run (firstn k (ford_ops b pkg c p pages)) f) q = outside (roots c) f q.
+  forall q, outside (roots c) (run (firstn k (ford_ops b pkg c p cands)) f) q = outside (roots c) f q.
 Proof. exact prefix_safe_eq. Qed.
 Print Assumptions C19_prefix_safe_eq.
 
@@ -81,8 +70,8 @@ Proof. exact run_op_local. Qed.
 Print Assumptions C19_op_local.
 
 (* output_dir equal to or above a source directory: no operation at all *)
-Theorem C19_refusal : forall b pkg c p pages src,
-  In src (srcs c) -> under (out c) src -> ford_ops b pkg c p pages = [].
+Theorem C19_refusal : forall b pkg c p cands src,
+  In src (srcs c) -> under (out c) src -> ford_ops b pkg c p cands = [].
 Proof. exact refusal. Qed.
 Print Assumptions C19_refusal.
 
@@ -93,21 +82,21 @@ Print Assumptions C19_refusal_exact.
 
 (* a run that is not refused never changes a source directory or one of its ancestors
    (x ranges over both), at any crash point *)
-Theorem C19_no_source_deleted : forall b pkg c p pages,
-  clean (out c) = true -> pages_safe pages = true -> refuse c = false ->
+Theorem C19_no_source_deleted : forall b pkg c p cands,
+  clean (out c) = true -> refuse c = false ->
   forall src x, In src (srcs c) -> under x src ->
   (forall g, graph_dir c = Some g -> ~ under g x) ->
-  forall (f : fs) k n, f x = Some n -> run (firstn k (ford_ops b pkg c p pages)) f x = Some n.
+  forall (f : fs) k n, f x = Some n -> run (firstn k (ford_ops b pkg c p cands)) f x = Some n.
 Proof. exact no_source_deleted. Qed.
 Print Assumptions C19_no_source_deleted.
 
 (* nor any file that source discovery keeps (output_dir is among the excluded directories) *)
-Theorem C19_discovered_sources_kept : forall b pkg c p pages,
-  clean (out c) = true -> pages_safe pages = true ->
+Theorem C19_discovered_sources_kept : forall b pkg c p cands,
+  clean (out c) = true ->
   In (out c) (excl c) ->
   forall x, discovered c x = true -> x <> out c ->
   (forall g, graph_dir c = Some g -> ~ under g x) ->
-  forall (f : fs) k n, f x = Some n -> run (firstn k (ford_ops b pkg c p pages)) f x = Some n.
+  forall (f : fs) k n, f x = Some n -> run (firstn k (ford_ops b pkg c p cands)) f x = Some n.
 Proof. exact discovered_sources_kept. Qed.
 Print Assumptions C19_discovered_sources_kept.
 
